@@ -26,15 +26,20 @@ import (
 
 // FilePlan is one cache-file run.
 type FilePlan struct {
-	Proto       string         `json:"proto"`
-	Exporters   []ExporterPlan `json:"exporters"`
-	Announce    []Delivery     `json:"announce"` // template messages, in order
-	Probes      []Delivery     `json:"probes"`   // one data message per saved key
-	ExtElements bool           `json:"ext_elements"`
-	Prefixes    []int          `json:"prefixes"`    // explicit prefix lengths (negative: from the end); empty with AllPrefixes
-	AllPrefixes bool           `json:"all_prefixes"`
-	Corrupt     []FileCorrupt  `json:"corrupt"`
-	Seed        int64          `json:"seed"`
+	Proto     string         `json:"proto"`
+	Exporters []ExporterPlan `json:"exporters"`
+	Announce  []Delivery     `json:"announce"` // template messages, in order
+	Probes    []Delivery     `json:"probes"`   // one data message per saved key
+	// second generation: the cache is loaded from the saved file, a few
+	// templates are announced again (unchanged, or with one specifier
+	// changed), it is saved over the same file and loaded once more
+	Gen2Announce []Delivery    `json:"gen2_announce,omitempty"`
+	Gen2Probes   []Delivery    `json:"gen2_probes,omitempty"`
+	ExtElements  bool          `json:"ext_elements"`
+	Prefixes     []int         `json:"prefixes"` // explicit prefix lengths (negative: from the end); empty with AllPrefixes
+	AllPrefixes  bool          `json:"all_prefixes"`
+	Corrupt      []FileCorrupt `json:"corrupt"`
+	Seed         int64         `json:"seed"`
 }
 
 // FileCorrupt is one corruption of the valid file.
@@ -99,18 +104,18 @@ func (a *fileAPI) dump(path string) error {
 }
 
 type fileFinding struct {
-	Class   string
-	Key     string
-	Msg     string
+	Class string
+	Key   string
+	Msg   string
 }
 
 type fileRun struct {
-	File       []byte
-	Variants   int
-	Loaded     int // variants in which at least one saved key was still known
-	Findings   []fileFinding
-	Kinds      map[string]int
-	Steps      uint64
+	File     []byte
+	Variants int
+	Loaded   int // variants in which at least one saved key was still known
+	Findings []fileFinding
+	Kinds    map[string]int
+	Steps    uint64
 }
 
 // structEdits are structure-level corruptions of the parsed document.
@@ -247,6 +252,10 @@ func runCacheFile(p *FilePlan, ch *simrt.Choices) *fileRun {
 	all := append(append([]Delivery(nil), p.Announce...), p.Probes...)
 	encodeItems(all, p.Exporters)
 	probes := all[len(p.Announce):]
+	all2 := append(append(append([]Delivery(nil), p.Announce...), p.Gen2Announce...), p.Gen2Probes...)
+	encodeItems(all2, p.Exporters)
+	gen2ann := all2[len(p.Announce) : len(p.Announce)+len(p.Gen2Announce)]
+	gen2probes := all2[len(p.Announce)+len(p.Gen2Announce):]
 	find := func(class, key, msg string) {
 		if len(res.Findings) < 6 {
 			res.Findings = append(res.Findings, fileFinding{class, key, msg})
@@ -349,6 +358,45 @@ func runCacheFile(p *FilePlan, ch *simrt.Choices) *fileRun {
 			}()
 		}
 		variant("intact", valid, true, nil, true)
+		// second generation: load the saved file, announce again, save over the
+		// same file, load: what the reloaded cache decodes must be what the
+		// cache decoded when it was saved
+		if len(gen2ann) > 0 {
+			res.Kinds["second-generation"]++
+			func() {
+				defer func() {
+					if r := recover(); r != nil {
+						find("panic-second-generation", fmt.Sprint(r), fmt.Sprintf("panic in the second generation: %v", r))
+					}
+				}()
+				l := &fileAPI{proto: p.Proto}
+				l.load(path)
+				for i := range gen2ann {
+					d := &gen2ann[i]
+					l.decode(srcAddr(&p.Exporters[d.Exporter]).IP, append([]byte(nil), d.payload...))
+				}
+				ref2 := make([][]byte, len(gen2probes))
+				for i := range gen2probes {
+					d := &gen2probes[i]
+					_, ref2[i], _ = l.decode(srcAddr(&p.Exporters[d.Exporter]).IP, append([]byte(nil), d.payload...))
+				}
+				if err := l.dump(path); err != nil {
+					find("dump-error", "second generation", err.Error())
+					return
+				}
+				m := &fileAPI{proto: p.Proto}
+				m.load(path)
+				for i := range gen2probes {
+					d := &gen2probes[i]
+					_, js, es := m.decode(srcAddr(&p.Exporters[d.Exporter]).IP, append([]byte(nil), d.payload...))
+					if !bytes.Equal(js, ref2[i]) {
+						find("second-generation-mismatch", p.Proto, fmt.Sprintf("a cache loaded from its file, updated by a re-announcement and saved over the same file decodes probe %d differently after the next load (%s):\n got %s\nwant %s", i, es, tail(string(js), 240), tail(string(ref2[i]), 240)))
+					}
+				}
+				// restore the first-generation file for the variants below
+				sim.FS.Put(path, valid)
+			}()
+		}
 		// saving over an existing, longer cache file (the previous run knew
 		// more templates) must leave exactly the new cache
 		{
@@ -482,6 +530,43 @@ func genFilePlan(seed int64, tier string) *FilePlan {
 			pm := &model.Msg{Proto: mp, Time: 2, Seq: seq, Domain: ex.Domain, Sets: []model.Set{ds}}
 			seq++
 			p.Probes = append(p.Probes, Delivery{Proto: p.Proto, Exporter: e, Abs: pm})
+		}
+		if r.Intn(2) == 0 {
+			// second generation for this exporter: one template announced again
+			ti := r.Intn(len(tpls))
+			for k := range tpls {
+				if tpls[k].Options && r.Intn(2) == 0 {
+					ti = k // options templates have two specifier lists
+				}
+			}
+			nt := tpls[ti]
+			nt.Fields = append([]model.FieldSpec(nil), nt.Fields...)
+			nt.Scope = append([]model.FieldSpec(nil), nt.Scope...)
+			dt := g.Template(nt.ID)
+			donor := dt.AllFields()[0]
+			switch k := r.Intn(4); {
+			case k == 0:
+				// unchanged: the periodic refresh
+			case k == 1 && len(nt.Scope) > 0:
+				nt.Scope[r.Intn(len(nt.Scope))] = donor // only the scope changes
+			case k == 2 && len(nt.Fields) > 0:
+				nt.Fields[r.Intn(len(nt.Fields))] = donor // only one field changes
+			default:
+				if len(nt.Fields) > 0 {
+					nt.Fields[len(nt.Fields)-1] = donor
+				} else if len(nt.Scope) > 0 {
+					nt.Scope[len(nt.Scope)-1] = donor
+				}
+			}
+			if g.MinRecLen(&nt) > 0 {
+				m2 := &model.Msg{Proto: mp, Time: 3, Seq: seq, Domain: ex.Domain, Sets: g.TemplateSets([]model.Template{nt})}
+				seq++
+				p.Gen2Announce = append(p.Gen2Announce, Delivery{Proto: p.Proto, Exporter: e, Abs: m2})
+				ds, _ := g.DataSet(&nt, 1+r.Intn(3), 600)
+				pm := &model.Msg{Proto: mp, Time: 4, Seq: seq, Domain: ex.Domain, Sets: []model.Set{ds}}
+				seq++
+				p.Gen2Probes = append(p.Gen2Probes, Delivery{Proto: p.Proto, Exporter: e, Abs: pm})
+			}
 		}
 	}
 	if tier == "thorough" {
